@@ -206,6 +206,15 @@ func (ex *Exec) rangeOf(t *Term, depth int) ival {
 				hi, ok2 := addOv(a.hi, -b.lo)
 				if ok1 && ok2 {
 					r = ival{lo, hi}
+					// relational facts of the path: a > b, a >= b
+					x, y := t.args[0], t.args[1]
+					if ex.known[ex.tc.SLt(y, x).id] || ex.known[ex.tc.SGt(x, y).id] {
+						r.lo = max(r.lo, 1)
+					} else if v, ok := ex.known[ex.tc.SLt(x, y).id]; ok && !v {
+						r.lo = max(r.lo, 0)
+					} else if v, ok := ex.known[ex.tc.SGt(y, x).id]; ok && !v {
+						r.lo = max(r.lo, 0)
+					}
 				}
 			}
 		case "bvmul":
@@ -450,4 +459,90 @@ func (ex *Exec) rangeWideS(t *Term, depth int) ival {
 		}
 	}
 	return ex.rangeWide(t, depth)
+}
+
+// rangeDecide tries to decide a comparison from interval facts alone.
+func (ex *Exec) rangeDecide(c *Term) (bool, bool) {
+	switch c.op {
+	case "not":
+		v, ok := ex.rangeDecide(c.args[0])
+		return !v, ok
+	case "and":
+		all := true
+		for _, a := range c.args {
+			v, ok := ex.rangeDecide(a)
+			if ok && !v {
+				return false, true
+			}
+			if !ok {
+				all = false
+			}
+		}
+		if all {
+			return true, true
+		}
+		return false, false
+	case "or":
+		all := true
+		for _, a := range c.args {
+			v, ok := ex.rangeDecide(a)
+			if ok && v {
+				return true, true
+			}
+			if !ok {
+				all = false
+			}
+		}
+		if all {
+			return false, true
+		}
+		return false, false
+	case "bvslt", "bvsle", "bvsgt", "bvsge", "=":
+		if c.args[0].sort.K != SBV || c.args[0].sort.W != 64 {
+			return false, false
+		}
+		full := ival{minI64, maxI64}
+		a, b := ex.rangeOf(c.args[0], 0), ex.rangeOf(c.args[1], 0)
+		if a == full && b == full {
+			return false, false
+		}
+		switch c.op {
+		case "bvslt":
+			if a.hi < b.lo {
+				return true, true
+			}
+			if a.lo >= b.hi {
+				return false, true
+			}
+		case "bvsle":
+			if a.hi <= b.lo {
+				return true, true
+			}
+			if a.lo > b.hi {
+				return false, true
+			}
+		case "bvsgt":
+			if a.lo > b.hi {
+				return true, true
+			}
+			if a.hi <= b.lo {
+				return false, true
+			}
+		case "bvsge":
+			if a.lo >= b.hi {
+				return true, true
+			}
+			if a.hi < b.lo {
+				return false, true
+			}
+		case "=":
+			if a.hi < b.lo || b.hi < a.lo {
+				return false, true
+			}
+			if a.lo == a.hi && b.lo == b.hi && a.lo == b.lo {
+				return true, true
+			}
+		}
+	}
+	return false, false
 }
